@@ -106,6 +106,12 @@ LazyCullOKc(S1, Vs, cl) ==
          \/ CullOK(S1, Vs, cl.now, LAMBDA rows : TRUE)
     ELSE CullOK(S1, Vs, cl.now, LAMBDA rows : cl.pb[Len(cl.pb)] + SizeSum(rows) >= S1.limit)
 
+\* A call that commits nothing is explained only by contents on which it has nothing to do: a store that reports
+\* success, or a removal that reports the value, without a COMMIT did not happen.
+Writer(op) == op \in {"set", "add", "incr", "touch", "pop", "delete", "push"}
+CandOf(db, cl) == LET res == Dispatch(db, cl) IN
+                  IF Writer(cl.op) /\ (cl.op \in {"set", "push"} \/ Proj(res.S) # Proj(db)) THEN {} ELSE {res.ret}
+
 \* add the return values that the reference dictionary gives on newly
 \* committed contents to every call that has not committed anything itself
 Refresh(Mo, dbNew, chg, me) ==
@@ -113,7 +119,7 @@ Refresh(Mo, dbNew, chg, me) ==
         LET cl == Mo.call[c] IN
         IF cl.op = "none" \/ c = me \/ cl.st # "open" \/ (IsLoopOp(cl.op) /\ ~IsQueueLoop(cl.op)) \/ Mo.tx[c].d > 0
         THEN cl
-        ELSE [cl EXCEPT !.cand = @ \cup {Dispatch(dbNew, cl).ret},
+        ELSE [cl EXCEPT !.cand = @ \cup CandOf(dbNew, cl),
                         !.touched = @ \cup chg,
                         !.ukeys = @ \cup KeysOf(dbNew.rows),
                         !.ikeys = @ \cap KeysOf(dbNew.rows)]]
@@ -160,7 +166,7 @@ OnCall(Mo, e) ==
                                !.tx[c].w = res.S], "")
     ELSE LET cl == NewCall(e.op, e.a, e.now, "open", Mo.db)
          IN V(TRUE, [Mo EXCEPT !.call[c] =
-                        IF IsLoopOp(e.op) /\ ~IsQueueLoop(e.op) THEN cl ELSE [cl EXCEPT !.cand = {Dispatch(Mo.db, cl).ret}]], "")
+                        IF IsLoopOp(e.op) /\ ~IsQueueLoop(e.op) THEN cl ELSE [cl EXCEPT !.cand = CandOf(Mo.db, cl)]], "")
 
 Publish(Mo, e, newdb0) ==
     \* common part of commit / autocommit: file references, counters, other calls
@@ -343,6 +349,8 @@ OnRet(Mo, e) ==
                     /\ \A i, j \in DOMAIN e.ret.v : e.ret.v[i] = e.ret.v[j] => i = j
                  THEN done1
             ELSE IF HasKey(cl) /\ e.ret = MissRet(cl) /\ cl.a.k \in cl.touched THEN done1
+            ELSE IF Writer(cl.op) /\ cl.cand = {}
+            THEN Fail(Mo, "C05/C14 " \o cl.op \o " returned " \o ToJson(e.ret) \o " without committing anything, on contents where it had something to do")
             ELSE Fail(Mo, "C05 " \o cl.op \o " returned " \o ToJson(e.ret) \o
                           " which the reference dictionary returns on none of the contents committed during the call: "
                           \o ToJson(cl.cand))
